@@ -37,3 +37,34 @@ pub fn c13_min_iter<const W: usize, const M: usize, const N: usize, const R: usi
     cover!(true, "req: end of harness reached");
     core::mem::forget(boxed);
 }
+
+
+/// Structural clause (see verif_c13k::c13_kmer_wiring): the wrapped minimiser iterator
+/// walks the object's own Arc-owned copy of the given bytes, with the given w and m
+/// (C09 decides the core iterator itself).
+pub fn c13_min_wiring<const W: usize, const M: usize, const N: usize>() {
+    let mut bytes = [0u8; N];
+    let mut i = 0;
+    while i < N {
+        let b = any_u8();
+        assume(b < 0x80);
+        bytes[i] = b;
+        i += 1;
+    }
+    let py = build(&bytes[..N], W, M);
+    let boxed = Box::new(py);
+    let walked = kmer::minimiser::verif_c13b::seq_of(&boxed._mg);
+    let owned: &[u8] = &boxed._data;
+    check!(walked.as_ptr() == owned.as_ptr() && walked.len() == owned.len(), "C13: the wrapped minimiser iterator does not walk the bytes the Python object owns");
+    check!(owned.len() == N, "C13: the Python minimiser iterator owns a string of different length than the one given");
+    let j = any_usize();
+    assume(j < N);
+    check!(owned[j] == bytes[j], "C13: the Python minimiser iterator owns different bytes than the string given");
+    check!(boxed.msize == M, "C13: the Python minimiser iterator stores a different m");
+    // a fresh core iterator with the same parameters is in the same initial state: compare the first item
+    let mut core = CoreMinimiserGenerator::new(&bytes[..N], W, M);
+    let mut b2 = boxed;
+    check!(b2._mg.next() == core.next(), "C13: Python minimiser iterator yields a different item than the core iterator");
+    cover!(true, "req: end of harness reached");
+    core::mem::forget(b2);
+}
